@@ -804,6 +804,116 @@ func (c *Ctx) mergeRefusal() {
 		}
 		return true
 	})
+	// (2') the search extracted into a predicate: `if t.sharesName(t2) { return <error> }` where the
+	// predicate ranges over one index, looks each name up in the other and returns true exactly when
+	// the look-up succeeds (false at the end)
+	if !foundShared {
+		for _, r := range rets {
+			conds, okc := c.pathConds(info, fi.Decl.Body, r, true)
+			if !okc {
+				continue
+			}
+			// the positive conditions on the way to this return (the negations of earlier early
+			// returns do not matter here): exactly one, a call
+			var pos []cond
+			for _, cd := range conds {
+				if cd.Expr != nil && !cd.Neg {
+					pos = append(pos, cd)
+				}
+			}
+			var call *ast.CallExpr
+			ncall := 0
+			for _, cd := range pos {
+				if cl, ok := unparen(cd.Expr).(*ast.CallExpr); ok {
+					if g := calleeOf(info, cl); g != nil && !g.Exported() && g.Pkg() == fi.Obj.Pkg() && c.FuncOfObj(g) != nil {
+						call = cl
+						ncall++
+					}
+				}
+			}
+			if ncall != 1 {
+				continue
+			}
+			g := calleeOf(info, call)
+			gi := c.FuncOfObj(g)
+			if g == nil || gi == nil || gi.Decl.Body == nil || g.Exported() || g.Pkg() != fi.Obj.Pkg() {
+				continue
+			}
+			// both trees reach the predicate (receiver and/or arguments)
+			uses := map[types.Object]bool{}
+			ast.Inspect(call, func(m ast.Node) bool {
+				if id, ok := m.(*ast.Ident); ok {
+					if o := info.Uses[id]; o == t1 || o == t2 {
+						uses[o] = true
+					}
+				}
+				return true
+			})
+			if len(uses) != 2 {
+				continue
+			}
+			ginfo := gi.Pkg.TypesInfo
+			good, nTrue, nFalse := true, 0, 0
+			var okObj types.Object
+			var loop *ast.RangeStmt
+			ast.Inspect(gi.Decl.Body, func(m ast.Node) bool {
+				if rs, ok := m.(*ast.RangeStmt); ok && rs.Key != nil && loop == nil {
+					if fv, _ := fieldOfSel(ginfo, rs.X); fv != nil && fv.Name() == "tipIndex" {
+						loop = rs
+					}
+				}
+				return true
+			})
+			if loop == nil {
+				continue
+			}
+			ownerX := func() types.Object { _, x := fieldOfSel(ginfo, loop.X); return identObj(ginfo, x) }()
+			keyObj := identObj(ginfo, loop.Key)
+			ast.Inspect(loop.Body, func(m ast.Node) bool {
+				if as, ok := m.(*ast.AssignStmt); ok && len(as.Lhs) == 2 && len(as.Rhs) == 1 {
+					if ix, ok := unparen(as.Rhs[0]).(*ast.IndexExpr); ok {
+						if fv2, y := fieldOfSel(ginfo, ix.X); fv2 != nil && fv2.Name() == "tipIndex" && identObj(ginfo, y) != ownerX && identObj(ginfo, y) != nil && identObj(ginfo, ix.Index) == keyObj {
+							okObj = identObj(ginfo, as.Lhs[1])
+						}
+					}
+				}
+				return true
+			})
+			if okObj == nil {
+				continue
+			}
+			ast.Inspect(gi.Decl.Body, func(m ast.Node) bool {
+				rt, ok := m.(*ast.ReturnStmt)
+				if !ok || len(rt.Results) != 1 {
+					return true
+				}
+				tv, isC := ginfo.Types[rt.Results[0]]
+				if !isC || tv.Value == nil {
+					good = false
+					return true
+				}
+				if tv.Value.String() == "true" {
+					nTrue++
+					cds, okc := c.pathConds(ginfo, gi.Decl.Body, rt, true)
+					if !okc {
+						good = false
+						return true
+					}
+					if eq, _, _, err := gfEquiv(c.condsToBexpr(ginfo, cds, nil), bAtom(okObj.Name())); err != nil || !eq {
+						good = false
+					}
+				} else {
+					nFalse++
+					if nodeContains(loop, rt.Pos()) {
+						good = false
+					}
+				}
+				return true
+			})
+			c.Check(good && nTrue == 1 && nFalse == 1, "ERRFLOW", name+"/shared-name-refused", r.Pos(), "the error is returned exactly when the predicate "+g.Name()+" finds a name of one index in the other", "the predicate "+g.Name()+" does not answer true exactly when a name of one index is found in the other: a shared tip name is not refused").Clause = clause
+			foundShared = true
+		}
+	}
 	if !foundShared {
 		c.Violation("ERRFLOW", name+"/shared-name-refused", fi.Decl.Pos(), "Merge does not return an error for a tip name present in both trees (no look-up of each name of one index in the other followed by an error return)").Clause = clause
 	}
